@@ -41,7 +41,7 @@ ASSUMPTIONS = [
 MUST_REACH = {"states": 500, "evictions_observed": 10, "reverse_after_later_injection": 10, "out_of_order_sends": 10,
               "resends_checked": 10, "law_evaluations": 10000, "circuit_forwarded": 100, "circuit_proxy_packets": 50,
               "circuit_replays_of_sent_messages": 10, "circuit_endpoint_resends": 5, "circuit_socket_failures": 20, "circuit_first_sightings_flagged_resent": 50,
-              "long_history_injections": 1100, "long_history_probes": 100}
+              "long_history_injections": 1100, "long_history_probes": 100, "long_history_probes_after_eviction": 50}
 
 ALPHABET = "NKHRLI"
 
@@ -427,37 +427,52 @@ def circuit_history(ctx, rng, steps):
     ctx.nontrivial(("circuit", tuple(path[-30:]), len(injected)))
 
 
-def long_history(ctx, rng):
-    """The stock window (10000) with far more than a thousand injections that are all still remembered: acknowledgements for
-    packets forwarded long ago, and for recent ones, must still translate back exactly."""
-    t = InjectionTracker(0, maxlen=10000)
-    injected, first = set(), {}
+def long_history(ctx, rng, default_window=False):
+    """The stock window (10000) with far more than a thousand injections that are all still remembered - and, on a tracker built
+    the way the circuit builds it (no explicit window), more injections than the window holds: acknowledgements for packets
+    forwarded long ago, and for recent ones, must still translate back exactly (above the aged-out injections)."""
+    import bisect
+    t = InjectionTracker(0) if default_window else InjectionTracker(0, maxlen=10000)
+    window = 10000
+    inj_sorted, first = [], {}
+    evicted_max = -1
     o = rng.choice([0, 1])
-    n_inj = 0
-    total = ctx.pick(2600, 9000)
+    total = ctx.pick(24000 if default_window else 2600, 30000 if default_window else 9000)
+
+    def expected(orig):
+        w = orig
+        while True:
+            w2 = orig + bisect.bisect_right(inj_sorted, w)
+            if w2 == w:
+                return w
+            w = w2
     for step in range(total):
-        if rng.random() < 0.55 and n_inj < total:
+        if rng.random() < 0.55:
             w = t.gen_injectable_id()
-            if w in injected or w in first.values():
-                ctx.violation("injected-id-collides", "injected id equals a wire id already in use", {"long_history_step": step, "wire": w})
+            if (inj_sorted and w <= inj_sorted[-1]) or w in first.values():
+                ctx.violation("injected-id-collides", "injected id is not above every wire id in use", {"long_history_step": step, "wire": w})
                 return
-            injected.add(w)
-            n_inj += 1
+            inj_sorted.append(w)
+            if len(inj_sorted) > window:
+                evicted_max = inj_sorted[len(inj_sorted) - window - 1]
         else:
             w = t.get_effective_id(o)
             t.track_seen(w)
-            want = expected_wire(injected, o)
+            want = expected(o)
             if w != want:
                 ctx.violation("long-history:effective-id-wrong", "translation differs from the shifted id after a long history",
-                              {"long_history_step": step, "orig": o, "wire": w, "expected": want, "injections": n_inj})
+                              {"long_history_step": step, "orig": o, "wire": w, "expected": want, "injections": len(inj_sorted),
+                               "default_window": default_window})
                 return
             first[o] = w
             o += 1
         if step % 97 == 0 and first:
             ctx.ev()
             keys = sorted(first)
-            probe = keys[:3] + keys[-3:] + [rng.choice(keys) for _ in range(6)]
+            probe = keys[:3] + keys[-3:] + [rng.choice(keys) for _ in range(6)] + [k for k in keys[-400:] if first[k] > evicted_max][:3]
             for po in probe:
+                if first[po] <= evicted_max:
+                    continue        # (below an injection that aged out of the window: the statement's own caveat)
                 try:
                     back = t.get_original_id(first[po])
                     again = t.get_effective_id(po)
@@ -465,18 +480,24 @@ def long_history(ctx, rng):
                     ctx.violation("translate-raises", "translation raised after a long history", {"long_history_step": step, "exc": repr(e)})
                     return
                 ctx.count("long_history_probes")
+                if evicted_max >= 0:
+                    ctx.count("long_history_probes_after_eviction")
                 if back != po or again != first[po]:
                     ctx.violation("long-history:reverse-translation-wrong" if back != po else "long-history:translation-unstable",
-                                  "after more than a thousand remembered injections a wire id did not translate back to its "
-                                  "original id / an id translated again changed", {"long_history_step": step, "orig": po,
-                                                                                  "wire": first[po], "back": back, "again": again,
-                                                                                  "injections": n_inj})
+                                  "after a long history a wire id did not translate back to its original id / an id translated "
+                                  "again changed", {"long_history_step": step, "orig": po, "wire": first[po], "back": back, "again": again,
+                                                    "injections": len(inj_sorted), "default_window": default_window})
                     return
-    ctx.count("long_history_injections", n_inj)
-    ctx.nontrivial(("long-history", n_inj, o))
+    ctx.count("long_history_injections", len(inj_sorted))
+    ctx.nontrivial(("long-history", len(inj_sorted), o, default_window))
 
 
 def run(ctx):
+    # the long histories run on the bare class (the ride-along shadow below costs O(remembered injections) per call)
+    if ctx.shard % 4 == 0:
+        long_history(ctx, ctx.rng)
+    if ctx.shard % 4 == 1:
+        long_history(ctx, ctx.rng, default_window=True)
     tmon.install()
     depth = ctx.pick(8, 12)
     configs = [(maxlen, start) for maxlen in (1, 2, 3) for start in (0, 1)]
@@ -506,8 +527,7 @@ def run(ctx):
         if ctx.out_of_time():
             break
         circuit_history(ctx, rng, rng.choice([20, 60, 150]))
-    if ctx.shard % 4 == 0:
-        long_history(ctx, rng)
+
     tmon.drain(ctx)
 
 
